@@ -157,7 +157,7 @@ def generate(ctx):
                 check = {"none": None, "own": oracles.vt(s, nvt), "original": oracles.vt(w, nvt),
                          "arbitrary": gens.random_dna(rng, nvt)}[ck]
                 yield "repair", dict(gcase, start=int(start), s=s, original=w, check=check, ck=ck, indel=rng.random() < 0.6,
-                                     heap=rng.choice(HEAPS), tag=tag, npstr=rng.random() < 0.15, again=rng.random() < 0.15, layout=rng.choice([None] * 6 + ["F"]))
+                                     heap=rng.choice(HEAPS), tag=tag, npstr=rng.random() < 0.15, again=rng.random() < 0.15, layout=rng.choice([None] * 6 + ["F", "i32", "i16"]), npargs=rng.random() < 0.1)
 
 
 def check_edit_sequence(ctx, case):
@@ -184,10 +184,13 @@ def check_edit_sequence(ctx, case):
 def check_repair(ctx, case, acc_obj=None):
     dsw = import_dsw()
     acc = gens.acc_of(case) if acc_obj is None else acc_obj
-    if acc_obj is None and case.get("layout") == "F":
-        acc = np.asfortranarray(acc)        # same values, column-major memory
-        ctx.cls("accessor layout|F")
+    if acc_obj is None and case.get("layout"):
+        acc = gens.as_layout(acc, case["layout"])        # same values, column-major memory / int32 / int16 entries
+        ctx.cls("accessor layout|" + case["layout"])
     k, s, start, check = case["k"], case["s"], case["start"], case["check"]
+    if case.get("npargs"):
+        s, start, k = np.str_(s), np.int32(start), np.int64(k)   # the strand out of a numpy array of reads, indices out of numpy
+        ctx.cls("strand / start / order passed as numpy scalars")
     passed = np.str_(check) if (check is not None and case.get("npstr")) else check
     kind, res, _r, _steps = call_repair(dsw, s, acc, start, k, check=passed, has_indel=case["indel"], heap=case["heap"])
     if kind == "ok" and well_formed(res) and acc_obj is None and case.get("again"):
@@ -266,7 +269,7 @@ def floors(agg, tier):
                        ("product|check filtered a candidate out", 30), ("string|last-window", 100), ("string|first-window", 100), ("string|near-pair", 600)):
         if c.get(name, 0) < need:
             out.append("%s observed %d < %d" % (name, c.get(name, 0), need))
-    for name, need in (("edit sequences (same accessor object overwritten in place)", 100), ("check passed as numpy.str_", 500), ("accessor layout|F", 500),
+    for name, need in (("edit sequences (same accessor object overwritten in place)", 100), ("check passed as numpy.str_", 500), ("accessor layout|F", 500), ("accessor layout|i16", 300), ("strand / start / order passed as numpy scalars", 300),
                        ("identical call repeated after its result was scrambled", 500)):
         if c.get(name, 0) < need:
             out.append("%s observed %d < %d" % (name, c.get(name, 0), need))
